@@ -15,12 +15,14 @@ package core
 //@ axiom cloneSameRoot: all(d, SignedData, res(1, d.Clone()) == nil ==> res(0, res(0, d.Clone()).MessageRoot()) == res(0, d.MessageRoot()) && res(1, res(0, d.Clone()).MessageRoot()) == res(1, d.MessageRoot()))
 
 //@ func (d ParSignedData) Clone
+//@ fresh r0
 //@ props C07 C18 C14
 //@ pure
 //@ ensures r1 == nil <==> res(1, d.SignedData.Clone()) == nil
 //@ ensures r1 == nil ==> r0.ShareIdx == d.ShareIdx && r0.SignedData == res(0, d.SignedData.Clone())
 
 //@ func (s SignedDataSet) Clone
+//@ fresh r0
 //@ props C09 C18
 //@ pure
 //@ ensures r1 == nil ==> forallk(k, s, has(r0, k) && res(1, s[k].Clone()) == nil && r0[k] == res(0, s[k].Clone()))
@@ -29,6 +31,7 @@ package core
 //@ loop 1 invariant forallk(k, resp, exists(t, 0, $i, $ks[t] == k))
 
 //@ func (s ParSignedDataSet) Clone
+//@ fresh r0
 //@ props C07 C18
 //@ pure
 //@ ensures r1 == nil ==> forallk(k, s, has(r0, k) && res(1, s[k].Clone()) == nil && r0[k] == res(0, s[k].Clone()))
@@ -383,3 +386,160 @@ package core
 //@ props C14
 //@ callreq json.Marshal: !(res(1, v.(ssz.Marshaler)) && sszMarshallingEnabled)
 //@ ensures res(1, v.(ssz.Marshaler)) && sszMarshallingEnabled ==> ncalls(marshaller.MarshalSSZ) == 1 && ncalls(json.Marshal) == 0
+
+// ---- C18: every Clone implementation returns an isolated copy -----------------------------------------
+// `fresh r0` is decided by the ownership rule of the verifier (type-directed, over the real body): the result
+// is built from allocations, pointer-free values, results of callees under a fresh contract, or objects filled
+// by a decoder from serialised bytes (A-CODEC-FRESH). A struct copy of a value that holds slices or pointers,
+// or returning the receiver, fails it.
+
+//@ func (d AttesterDefinition) Clone
+//@ props C18
+//@ fresh r0
+
+//@ func (d ProposerDefinition) Clone
+//@ props C18
+//@ fresh r0
+
+//@ func (s SyncCommitteeDefinition) Clone
+//@ props C18
+//@ fresh r0
+
+//@ func (s Signature) Clone
+//@ props C18
+//@ fresh r0
+
+//@ func (s Signature) clone
+//@ props C18
+//@ fresh r0
+
+//@ func (p VersionedSignedProposal) Clone
+//@ props C18
+//@ fresh r0
+
+//@ func (p VersionedSignedProposal) clone
+//@ props C18
+//@ fresh r0
+
+//@ func (a VersionedAttestation) Clone
+//@ props C18
+//@ fresh r0
+
+//@ func (a VersionedAttestation) clone
+//@ props C18
+//@ fresh r0
+
+//@ func (e SignedVoluntaryExit) Clone
+//@ props C18
+//@ fresh r0
+
+//@ func (e SignedVoluntaryExit) clone
+//@ props C18
+//@ fresh r0
+
+//@ func (r VersionedSignedValidatorRegistration) Clone
+//@ props C18
+//@ fresh r0
+
+//@ func (r VersionedSignedValidatorRegistration) clone
+//@ props C18
+//@ fresh r0
+
+//@ func (s SignedRandao) Clone
+//@ props C18
+//@ fresh r0
+
+//@ func (s SignedRandao) clone
+//@ props C18
+//@ fresh r0
+
+//@ func (s BeaconCommitteeSelection) Clone
+//@ props C18
+//@ fresh r0
+
+//@ func (s BeaconCommitteeSelection) clone
+//@ props C18
+//@ fresh r0
+
+//@ func (s SyncCommitteeSelection) Clone
+//@ props C18
+//@ fresh r0
+
+//@ func (s SyncCommitteeSelection) clone
+//@ props C18
+//@ fresh r0
+
+//@ func (s SignedAggregateAndProof) Clone
+//@ props C18
+//@ fresh r0
+
+//@ func (s SignedAggregateAndProof) clone
+//@ props C18
+//@ fresh r0
+
+//@ func (ap VersionedSignedAggregateAndProof) Clone
+//@ props C18
+//@ fresh r0
+
+//@ func (ap VersionedSignedAggregateAndProof) clone
+//@ props C18
+//@ fresh r0
+
+//@ func (s SignedSyncMessage) Clone
+//@ props C18
+//@ fresh r0
+
+//@ func (s SignedSyncMessage) clone
+//@ props C18
+//@ fresh r0
+
+//@ func (s SyncContributionAndProof) Clone
+//@ props C18
+//@ fresh r0
+
+//@ func (s SyncContributionAndProof) clone
+//@ props C18
+//@ fresh r0
+
+//@ func (s SignedSyncContributionAndProof) Clone
+//@ props C18
+//@ fresh r0
+
+//@ func (s SignedSyncContributionAndProof) clone
+//@ props C18
+//@ fresh r0
+
+//@ func (s DutyDefinitionSet) Clone
+//@ props C18
+//@ fresh r0
+//@ loop 1 invariant true
+
+//@ func (s UnsignedDataSet) Clone
+//@ props C18
+//@ fresh r0
+//@ loop 1 invariant true
+
+//@ func (a AttestationData) Clone
+//@ props C18
+//@ fresh r0
+
+//@ func (a AggregatedAttestation) Clone
+//@ props C18
+//@ fresh r0
+
+//@ func (a VersionedAggregatedAttestation) Clone
+//@ props C18
+//@ fresh r0
+
+//@ func (p VersionedProposal) Clone
+//@ props C18
+//@ fresh r0
+
+//@ func (s SyncContribution) Clone
+//@ props C18
+//@ fresh r0
+
+//@ func (s SyncContributions) Clone
+//@ props C18
+//@ fresh r0
+//@ loop 1 invariant true
